@@ -87,6 +87,27 @@ class SumsMixin:
             ctx.assume(tot == 0)
         return ok
 
+    def sum_point_update(self, s_new, s_old, idx):
+        """finite sums differing at one index (A6): if 0 <= idx < n and new(i) == old(i) for every i != idx, then
+        S_new - S_old == new(idx) - old(idx).  The pointwise premise is PROVED (scoped), then the fact is recorded."""
+        ctx = self.ctx
+        en = [e for e in ctx.sums if e[0].eq(s_new.t)]
+        eo = [e for e in ctx.sums if e[0].eq(s_old.t)]
+        if not en or not eo:
+            raise Unsupported("sum_point_update: not recorded sums")
+        (cn, nn, stn), (co, no, sto) = en[0], eo[0]
+        if not ctx.entails(z3.And(nn == no, idx >= 0, idx < nn)):
+            return False
+
+        def body():
+            i = ctx.const("isum", z3.IntSort())
+            ctx.assume(z3.And(i >= 0, i < nn, i != idx))
+            return ctx.entails(zreal(stn.fn(i)) == zreal(sto.fn(i)))
+        ok = self.forall_paths(body)
+        if ok:
+            ctx.assume(cn - co == zreal(stn.at(idx)) - zreal(sto.at(idx)))
+        return ok
+
     def sum_facts(self):
         """automatic pairwise extensionality between recorded sums of provably equal length"""
         ctx = self.ctx
